@@ -83,41 +83,40 @@ Qed.
 Lemma fle_refl : forall x, not_nan x -> fle x x.
 Proof. intros x H. unfold fle. rewrite cmp_refl by assumption. exact I. Qed.
 
-Lemma clamp_range : forall v mn mx, not_nan v -> fle mn mx ->
+Lemma clamp_range : forall v mn mx, fle mn mx ->
   fle mn (clamp v mn mx) /\ fle (clamp v mn mx) mx.
 Proof.
-  intros v mn mx Hv Hle. unfold clamp, gt32, lt32.
+  intros v mn mx Hle. unfold clamp, gt32, ge32.
   assert (Hmn : not_nan mn /\ not_nan mx).
   { unfold fle, b32_compare, Bcompare, BinarySingleNaN.Bcompare in Hle.
     unfold not_nan. destruct mn; destruct mx; simpl in *; try tauto; auto. }
   destruct Hmn as [Hmn Hmx].
-  destruct (cmp_nan_l v mx Hv Hmx) as [c1 E1]. rewrite E1.
-  destruct c1.
-  - (* v = mx: not greater; compare with mn *)
-    destruct (cmp_nan_l v mn Hv Hmn) as [c2 E2]. rewrite E2.
-    destruct c2.
-    + split; [|unfold fle; rewrite E1; exact I].
-      unfold fle. rewrite cmp_swap, E2. exact I.
-    + split; [apply fle_refl; assumption|assumption].
-    + split; [|unfold fle; rewrite E1; exact I].
-      unfold fle. rewrite cmp_swap, E2. exact I.
-  - destruct (cmp_nan_l v mn Hv Hmn) as [c2 E2]. rewrite E2.
-    destruct c2.
-    + split; [|unfold fle; rewrite E1; exact I].
-      unfold fle. rewrite cmp_swap, E2. exact I.
-    + split; [apply fle_refl; assumption|assumption].
-    + split; [|unfold fle; rewrite E1; exact I].
-      unfold fle. rewrite cmp_swap, E2. exact I.
-  - split; [assumption|apply fle_refl; assumption].
+  destruct (b32_compare v mx) as [[| |]|] eqn:E1;
+    try (split; [assumption|apply fle_refl; assumption]).
+  - (* v = mx *)
+    destruct (b32_compare v mn) as [[| |]|] eqn:E2; cbn [negb];
+      try (split; [apply fle_refl; assumption|assumption]).
+    + split; [unfold fle; rewrite cmp_swap, E2; exact I|unfold fle; rewrite E1; exact I].
+    + split; [unfold fle; rewrite cmp_swap, E2; exact I|unfold fle; rewrite E1; exact I].
+  - (* v < mx *)
+    destruct (b32_compare v mn) as [[| |]|] eqn:E2; cbn [negb];
+      try (split; [apply fle_refl; assumption|assumption]).
+    + split; [unfold fle; rewrite cmp_swap, E2; exact I|unfold fle; rewrite E1; exact I].
+    + split; [unfold fle; rewrite cmp_swap, E2; exact I|unfold fle; rewrite E1; exact I].
+  - (* unordered: v is NaN, so v >= mn is false *)
+    assert (E2 : b32_compare v mn = None).
+    { unfold b32_compare, Bcompare, BinarySingleNaN.Bcompare in *.
+      destruct v; destruct mx; destruct mn; simpl in *; try discriminate; try reflexivity. }
+    rewrite E2. cbn [negb]. split; [apply fle_refl; assumption|assumption].
 Qed.
 
 (* float-typed linear parameter: the emitted value is inside [min,max] *)
 Lemma float_output_in_range : forall (expf_o : f32 -> f32) s value,
   used s = true -> s_type s = ch_f -> s_scale s = 0 ->
-  fle (s_min s) (s_max s) -> not_nan (lin value (cp1 s) (cp3 s)) ->
+  fle (s_min s) (s_max s) ->
   exists c, sub_output expf_o s value = [MsgF (s_path s) c] /\ fle (s_min s) c /\ fle c (s_max s).
 Proof.
-  intros expf_o s value Hu Ht Hs Hle Hv. unfold sub_output. rewrite Hu, Ht, Hs. simpl.
+  intros expf_o s value Hu Ht Hs Hle. unfold sub_output. rewrite Hu, Ht, Hs. simpl.
   eexists. split; [reflexivity|]. apply clamp_range; assumption.
 Qed.
 
@@ -239,6 +238,12 @@ Proof.
   destruct (Rcompare_spec (val x) (val y)); split; intro H0; try tauto; try lra.
 Qed.
 
+Lemma ge32_val : forall x y, finite32 x -> finite32 y -> ge32 x y = true <-> (val y <= val x)%R.
+Proof.
+  intros x y Fx Fy. unfold ge32. rewrite cmp_val by assumption.
+  destruct (Rcompare_spec (val x) (val y)); split; intro H0; try discriminate; try lra; reflexivity.
+Qed.
+
 Lemma clamp_val : forall v mn mx, finite32 v -> finite32 mn -> finite32 mx ->
   finite32 (clamp v mn mx) /\
   val (clamp v mn mx) =
@@ -251,11 +256,11 @@ Proof.
   - assert (~ (val mx < val v)%R).
     { intro H. apply gt32_val in H; try assumption. congruence. }
     destruct (Rlt_dec (val mx) (val v)); [lra|].
-    destruct (lt32 v mn) eqn:E2.
-    + apply lt32_val in E2; try assumption. destruct (Rlt_dec (val v) (val mn)); [auto|lra].
-    + assert (~ (val v < val mn)%R).
-      { intro H1. apply lt32_val in H1; try assumption. congruence. }
-      destruct (Rlt_dec (val v) (val mn)); [lra|auto].
+    destruct (ge32 v mn) eqn:E2; cbn [negb].
+    + apply ge32_val in E2; try assumption. destruct (Rlt_dec (val v) (val mn)); [lra|auto].
+    + assert (~ (val mn <= val v)%R).
+      { intro H1. apply ge32_val in H1; try assumption. congruence. }
+      destruct (Rlt_dec (val v) (val mn)); [auto|lra].
 Qed.
 
 Lemma clamp_monotone : forall v1 v2 mn mx,
@@ -327,13 +332,12 @@ Lemma int_output_in_range : forall (expf_o : f32 -> f32) s value a b,
   finite32 (s_min s) -> finite32 (s_max s) ->
   val (s_min s) = IZR a -> val (s_max s) = IZR b -> a <= b ->
   -2147483648 <= a -> b <= 2147483647 ->
-  not_nan (lin value (cp1 s) (cp3 s)) ->
   exists z, sub_output expf_o s value = [MsgI (s_path s) z] /\ a <= z <= b.
 Proof.
-  intros expf_o s value a b Hu Ht Fmn Fmx Ea Eb Hab Hlo Hhi Hv.
+  intros expf_o s value a b Hu Ht Fmn Fmx Ea Eb Hab Hlo Hhi.
   assert (Hle : fle (s_min s) (s_max s)).
   { apply fle_val; try assumption. rewrite Ea, Eb. apply IZR_le. assumption. }
-  destruct (clamp_range _ _ _ Hv Hle) as [H1 H2].
+  destruct (clamp_range (lin value (cp1 s) (cp3 s)) _ _ Hle) as [H1 H2].
   set (c := clamp (lin value (cp1 s) (cp3 s)) (s_min s) (s_max s)) in *.
   assert (Fc : finite32 c) by (apply (fle_between_finite (s_min s) (s_max s) c); assumption).
   apply fle_val in H1; try assumption. apply fle_val in H2; try assumption.
